@@ -190,10 +190,10 @@ ENTRIES["C15"] = {
     "technique": "TLA+ spec (HttpParse: request grammar, path normalisation, header lookup, end-of-head search) evaluated by TLC to enumerate inputs with expected results; replayed on the real parser under ASan and against a guard page",
     "text": ("The parser is a pure function, so the specification is its transcription: TLC enumerates every well-formed request of "
              "a bounded grammar together with the method, normalised path, header map (last duplicate wins, names lower-cased, "
-             "values trimmed) and head length the statement demands, and every string over a 6-symbol alphabet up to length 6/7 "
+             "values trimmed) and head length the statement demands, and every string over a 6-symbol alphabet up to length 6 (quick) / 8 (thorough) "
              "with the expected find_request_len; the replayer runs each through sim::http parsing in an exactly sized heap block "
              "and flush against an inaccessible page and compares all results."),
-    "note": ("Trusted: TLC; harness/replay_http_parse.cpp. Bounds: <= 3 path segments, <= 2 header lines, strings <= 7 symbols, "
+    "note": ("Trusted: TLC; harness/replay_http_parse.cpp. Bounds: <= 3 path segments, <= 2 header lines, strings <= 8 symbols, "
              "plus all prefixes and random mutations of the well-formed sample."),
 }
 ENTRIES["C16"] = {
